@@ -1,3 +1,969 @@
+//! Harness for component `cluster` (C01-C03, C05-C09, C13, C14): the REAL tako core + scheduler,
+//! REAL worker state machines and the REAL HyperQueue job layer / client RPC loop, connected by
+//! in-memory channels.  The harness decides, one step at a time, which message is delivered, which
+//! task future ends how, when the scheduler runs, which worker dies, which client request arrives.
+//!
+//! Every step is logged as an `O` line (operation + the nondeterministic choices the real code made:
+//! the solver's answer, hash-iteration orders) followed by `=` lines (everything observable:
+//! client response, journal events, launcher calls, and canonical snapshots of the core, the job
+//! layer, the workers and the channels).
+use futures::{SinkExt, StreamExt};
+use hqv_common::{Rng, env_u64, install_panic_hook, join};
+use hyperqueue::common::arraydef::IntArray;
+use hyperqueue::common::serverdir::ServerDir;
+use hyperqueue::server::client::client_rpc_loop;
+use hyperqueue::server::event::journal::EventStreamMessage;
+use hyperqueue::server::event::payload::EventPayload;
+use hyperqueue::server::job::JobTaskState;
+use hyperqueue::transfer::messages::{
+    CancelJobResponse, CancelRequest, CloseJobRequest, CloseJobResponse, ForgetJobRequest,
+    FromClientMessage, IdSelector, JobDescription, JobSubmitDescription, JobTaskDescription,
+    PinMode, SubmitRequest, SubmitResponse, TaskDescription, TaskKind, TaskKindProgram,
+    TaskWithDependencies, ToClientMessage,
+};
+use hyperqueue::verif::cluster::{HqSim, new_hq_sim, running_context};
+use std::cell::RefCell;
+use std::fmt::Write as _;
+use std::rc::Rc;
+use std::sync::Arc;
+use std::time::Duration;
+use tako::gateway::{
+    CrashLimit, LostWorkerReason, ResourceRequest, ResourceRequestEntry, ResourceRequestVariants,
+};
+use tako::internal::scheduler::SchedulerConfig;
+use tako::internal::verif::cluster::{VDown, VEnd, VUp, VUpdate, WorkerSpec};
+use tako::program::ProgramDefinition;
+use tako::resources::{AllocationRequest, ResourceAmount};
+use tako::{JobId, JobTaskId, TaskId, WorkerId};
+use tokio::sync::Notify;
+
+const RES_NAMES: [&str; 3] = ["cpus", "gpus", "mem"];
+
+fn tid(t: TaskId) -> String {
+    format!("{}.{}", t.job_id(), t.job_task_id())
+}
+fn tids(ts: &[TaskId]) -> String {
+    join(ts.iter().map(|t| tid(*t)), ",")
+}
+fn sorted_tids(ts: &[TaskId]) -> String {
+    let mut v = ts.to_vec();
+    v.sort();
+    tids(&v)
+}
+fn parse_tid(s: &str) -> TaskId {
+    let (j, t) = s.split_once('.').unwrap();
+    TaskId::new(JobId::new(j.parse().unwrap()), JobTaskId::new(t.parse().unwrap()))
+}
+
+fn fail_class(msg: &str) -> &'static str {
+    if msg.contains("Time limit reached") {
+        "timelimit"
+    } else if msg.contains("never restart") {
+        "neverrestart"
+    } else if msg.contains("limit was reached") {
+        "crashlimit"
+    } else if msg.contains("launch failed") {
+        "launch"
+    } else if msg.contains("task failed") {
+        "task"
+    } else {
+        "other"
+    }
+}
+
+fn down_str(m: &VDown) -> String {
+    match m {
+        VDown::Compute(ts) => format!(
+            "compute {}",
+            join(
+                ts.iter().map(|(t, inst, rv, rq, nodes)| format!(
+                    "{}:{}:{}:{}:{}",
+                    tid(*t),
+                    inst,
+                    rv.map(|v| v.to_string()).unwrap_or("p".into()),
+                    rq,
+                    join(nodes.iter(), "+")
+                )),
+                ","
+            )
+        ),
+        VDown::Retract(ts) => format!("retract {}", sorted_tids(ts)),
+        VDown::Cancel(ts) => format!("cancel {}", sorted_tids(ts)),
+        VDown::NewWorker(w) => format!("newworker {w}"),
+        VDown::LostWorker(w) => format!("lostworker {w}"),
+        VDown::NewRq(r) => format!("newrq {r}"),
+        VDown::Stop => "stop".into(),
+        VDown::Other => "other".into(),
+    }
+}
+
+fn up_str(m: &VUp) -> String {
+    match m {
+        VUp::Updates(us) => format!(
+            "updates {}",
+            join(
+                us.iter().map(|u| match u {
+                    VUpdate::Finished(t) => format!("fin:{}", tid(*t)),
+                    VUpdate::Failed(t, m) => format!("fail:{}:{}", tid(*t), fail_class(m)),
+                    VUpdate::Running(t, rv) => format!("run:{}:{}", tid(*t), rv),
+                    VUpdate::RunningPrefilled(t, rv) => format!("runp:{}:{}", tid(*t), rv),
+                    VUpdate::Reject(t, rv) => format!("rej:{}:{}", tid(*t), rv.map(|v| v.to_string()).unwrap_or("-".into())),
+                    VUpdate::Enable(rq, rv) => format!("en:{rq}:{rv}"),
+                }),
+                ","
+            )
+        ),
+        VUp::RetractResponse(ts) => format!("retractresp {}", tids(ts)),
+        VUp::Other => "other".into(),
+    }
+}
+
+/// Request shape: `n<k>` = multi-node with k nodes, `c<a>g<b>m<c>` = units of cpus / gpus / mem.
+#[derive(Clone, Debug, PartialEq)]
+struct RqSpec {
+    nodes: u32,
+    units: [u32; 3],
+}
+impl RqSpec {
+    fn sym(&self) -> String {
+        if self.nodes > 0 { format!("n{}", self.nodes) } else { format!("c{}g{}m{}", self.units[0], self.units[1], self.units[2]) }
+    }
+    fn parse(s: &str) -> RqSpec {
+        if let Some(n) = s.strip_prefix('n') {
+            return RqSpec { nodes: n.parse().unwrap(), units: [0; 3] };
+        }
+        let (c, rest) = s[1..].split_once('g').unwrap();
+        let (g, m) = rest.split_once('m').unwrap();
+        RqSpec { nodes: 0, units: [c.parse().unwrap(), g.parse().unwrap(), m.parse().unwrap()] }
+    }
+    fn to_rqv(&self) -> ResourceRequestVariants {
+        let mut resources = smallvec::SmallVec::new();
+        if self.nodes == 0 {
+            for (i, u) in self.units.iter().enumerate() {
+                if *u > 0 {
+                    resources.push(ResourceRequestEntry { resource: RES_NAMES[i].to_string(), policy: AllocationRequest::Compact(ResourceAmount::new_units(*u)) });
+                }
+            }
+        }
+        ResourceRequestVariants::new(smallvec::smallvec![ResourceRequest { n_nodes: self.nodes, resources, min_time: Duration::ZERO, weight: Default::default() }])
+    }
+}
+
+#[derive(Clone, Debug)]
+enum Crash {
+    Never,
+    Max(u16),
+    Unlimited,
+}
+impl Crash {
+    fn sym(&self) -> String {
+        match self {
+            Crash::Never => "never".into(),
+            Crash::Max(n) => n.to_string(),
+            Crash::Unlimited => "unl".into(),
+        }
+    }
+    fn parse(s: &str) -> Crash {
+        match s {
+            "never" => Crash::Never,
+            "unl" => Crash::Unlimited,
+            n => Crash::Max(n.parse().unwrap()),
+        }
+    }
+    fn to_limit(&self) -> CrashLimit {
+        match self {
+            Crash::Never => CrashLimit::NeverRestart,
+            Crash::Max(n) => CrashLimit::MaxCrashes(*n),
+            Crash::Unlimited => CrashLimit::Unlimited,
+        }
+    }
+}
+
+fn task_desc(prio: i32, crash: &Crash, tlim: bool) -> TaskDescription {
+    TaskDescription {
+        kind: TaskKind::ExternalProgram(TaskKindProgram {
+            program: ProgramDefinition { args: vec!["true".into()], env: Default::default(), stdout: Default::default(), stderr: Default::default(), stdin: vec![], cwd: "/tmp".into() },
+            pin_mode: PinMode::None,
+            task_dir: false,
+        }),
+        time_limit: if tlim { Some(Duration::from_secs(3600)) } else { None },
+        priority: prio.into(),
+        crash_limit: crash.to_limit(),
+    }
+}
+
+#[derive(Clone, Debug)]
+enum Op {
+    Connect { units: [u32; 3], group: u32 },
+    Lost { w: u32, reason: u32 },
+    Submit { job: Option<u32>, ids: Option<Vec<u32>>, entries: Option<u32>, rq: RqSpec, prio: i32, crash: Crash, tlim: bool, maxfails: Option<u32> },
+    SubmitG { job: Option<u32>, rqs: Vec<RqSpec>, tasks: Vec<(u32, u32, i32, Crash, Vec<u32>)>, maxfails: Option<u32> },
+    Open { maxfails: Option<u32> },
+    Close { job: u32 },
+    Cancel { job: u32 },
+    Forget { job: u32 },
+    DDown { w: u32 },
+    DUp { w: u32 },
+    Sched,
+    End { w: u32, t: TaskId, how: u32 }, // 0 ok, 1 fail, 2 follow stop
+    FailNext { w: u32, t: TaskId },
+    Timer,
+}
+
+fn opt_u32(o: &Option<u32>) -> String {
+    o.map(|x| x.to_string()).unwrap_or("-".into())
+}
+
+fn op_sym(o: &Op) -> String {
+    match o {
+        Op::Connect { units, group } => format!("CONNECT {},{},{} {}", units[0], units[1], units[2], group),
+        Op::Lost { w, reason } => format!("LOST {w} {reason}"),
+        Op::Submit { job, ids, entries, rq, prio, crash, tlim, maxfails } => format!(
+            "SUBMIT {} {} {} {} {} {} {} {}",
+            opt_u32(job),
+            ids.as_ref().map(|v| join(v.iter(), ",")).unwrap_or("auto".into()),
+            opt_u32(entries),
+            rq.sym(),
+            prio,
+            crash.sym(),
+            *tlim as u32,
+            opt_u32(maxfails)
+        ),
+        Op::SubmitG { job, rqs, tasks, maxfails } => format!(
+            "SUBMITG {} {} {} {}",
+            opt_u32(job),
+            join(rqs.iter().map(|r| r.sym()), "|"),
+            join(tasks.iter().map(|(id, rq, p, c, d)| format!("{}:{}:{}:{}:{}", id, rq, p, c.sym(), join(d.iter(), "+"))), ";"),
+            opt_u32(maxfails)
+        ),
+        Op::Open { maxfails } => format!("OPEN {}", opt_u32(maxfails)),
+        Op::Close { job } => format!("CLOSE {job}"),
+        Op::Cancel { job } => format!("CANCEL {job}"),
+        Op::Forget { job } => format!("FORGET {job}"),
+        Op::DDown { w } => format!("DDOWN {w}"),
+        Op::DUp { w } => format!("DUP {w}"),
+        Op::Sched => "SCHED".into(),
+        Op::End { w, t, how } => format!("END {w} {} {}", tid(*t), ["ok", "fail", "stop"][*how as usize]),
+        Op::FailNext { w, t } => format!("FAILNEXT {w} {}", tid(*t)),
+        Op::Timer => "TIMER".into(),
+    }
+}
+
+fn parse_opt(s: &str) -> Option<u32> {
+    if s == "-" { None } else { Some(s.parse().unwrap()) }
+}
+
+fn parse_op(line: &str) -> Op {
+    let t: Vec<&str> = line.split_whitespace().collect();
+    match t[0] {
+        "CONNECT" => {
+            let u: Vec<u32> = t[1].split(',').map(|x| x.parse().unwrap()).collect();
+            Op::Connect { units: [u[0], u[1], u[2]], group: t[2].parse().unwrap() }
+        }
+        "LOST" => Op::Lost { w: t[1].parse().unwrap(), reason: t[2].parse().unwrap() },
+        "SUBMIT" => Op::Submit {
+            job: parse_opt(t[1]),
+            ids: if t[2] == "auto" { None } else { Some(t[2].split(',').filter(|x| *x != "-").map(|x| x.parse().unwrap()).collect()) },
+            entries: parse_opt(t[3]),
+            rq: RqSpec::parse(t[4]),
+            prio: t[5].parse().unwrap(),
+            crash: Crash::parse(t[6]),
+            tlim: t[7] == "1",
+            maxfails: parse_opt(t[8]),
+        },
+        "SUBMITG" => Op::SubmitG {
+            job: parse_opt(t[1]),
+            rqs: t[2].split('|').map(RqSpec::parse).collect(),
+            tasks: t[3]
+                .split(';')
+                .map(|x| {
+                    let p: Vec<&str> = x.split(':').collect();
+                    (
+                        p[0].parse().unwrap(),
+                        p[1].parse().unwrap(),
+                        p[2].parse().unwrap(),
+                        Crash::parse(p[3]),
+                        if p[4] == "-" { vec![] } else { p[4].split('+').map(|d| d.parse().unwrap()).collect() },
+                    )
+                })
+                .collect(),
+            maxfails: parse_opt(t[4]),
+        },
+        "OPEN" => Op::Open { maxfails: parse_opt(t[1]) },
+        "CLOSE" => Op::Close { job: t[1].parse().unwrap() },
+        "CANCEL" => Op::Cancel { job: t[1].parse().unwrap() },
+        "FORGET" => Op::Forget { job: t[1].parse().unwrap() },
+        "DDOWN" => Op::DDown { w: t[1].parse().unwrap() },
+        "DUP" => Op::DUp { w: t[1].parse().unwrap() },
+        "SCHED" => Op::Sched,
+        "END" => Op::End { w: t[1].parse().unwrap(), t: parse_tid(t[2]), how: match t[3] { "ok" => 0, "fail" => 1, _ => 2 } },
+        "FAILNEXT" => Op::FailNext { w: t[1].parse().unwrap(), t: parse_tid(t[2]) },
+        "TIMER" => Op::Timer,
+        _ => panic!("bad op {line}"),
+    }
+}
+
+struct H {
+    hq: HqSim,
+    req_tx: futures::channel::mpsc::UnboundedSender<tako::Result<FromClientMessage>>,
+    resp_rx: futures::channel::mpsc::UnboundedReceiver<ToClientMessage>,
+    events: Rc<RefCell<Vec<String>>>,
+    launch_seen: std::collections::HashMap<u32, usize>,
+    out: String,
+    dead: bool,
+}
+
+async fn settle() {
+    for _ in 0..40 {
+        tokio::task::yield_now().await;
+    }
+}
+
+fn event_str(p: &EventPayload) -> Option<String> {
+    Some(match p {
+        EventPayload::WorkerConnected(w, _) => format!("wconn {w}"),
+        EventPayload::WorkerLost(w, r) => format!("wlost {w} {}", reason_idx(r)),
+        EventPayload::Submit { job_id, closed_job, serialized_desc } => {
+            let n = serialized_desc.deserialize().map(|r: SubmitRequest| r.submit_desc.task_desc.task_count()).unwrap_or(0);
+            format!("submit {job_id} closed={} n={n}", *closed_job as u32)
+        }
+        EventPayload::JobCompleted(j) => format!("completed {j}"),
+        EventPayload::JobOpen(j, _) => format!("open {j}"),
+        EventPayload::JobClose(j) => format!("close {j}"),
+        EventPayload::JobCancel { job_id, .. } => format!("jobcancel {job_id}"),
+        EventPayload::TaskStarted { task_id, instance_id, worker_ids, rv_id } => {
+            format!("started {} inst={} w={} rv={}", tid(*task_id), instance_id, join(worker_ids.iter(), "+"), rv_id)
+        }
+        EventPayload::TaskFinished { task_id } => format!("finished {}", tid(*task_id)),
+        EventPayload::TaskFailed { task_id, error } => format!("failed {} {}", tid(*task_id), fail_class(error)),
+        EventPayload::TasksCanceled { task_ids } => format!("canceled {}", sorted_tids(task_ids)),
+        EventPayload::TasksAborted { task_ids } => format!("aborted {}", sorted_tids(task_ids)),
+        _ => return None,
+    })
+}
+
+fn reason_idx(r: &LostWorkerReason) -> u32 {
+    match r {
+        LostWorkerReason::Stopped => 0,
+        LostWorkerReason::ConnectionLost => 1,
+        LostWorkerReason::HeartbeatLost => 2,
+        LostWorkerReason::IdleTimeout => 3,
+        LostWorkerReason::TimeLimitReached => 4,
+    }
+}
+fn reason_of(i: u32) -> LostWorkerReason {
+    match i {
+        0 => LostWorkerReason::Stopped,
+        1 => LostWorkerReason::ConnectionLost,
+        2 => LostWorkerReason::HeartbeatLost,
+        3 => LostWorkerReason::IdleTimeout,
+        _ => LostWorkerReason::TimeLimitReached,
+    }
+}
+
+impl H {
+    fn new(reserve: u32, max: u32) -> H {
+        let config = SchedulerConfig { proactive_filling_reserve: reserve, proactive_filling_max: max, mip_time_limit: Duration::from_secs(20) };
+        let mut hq = new_hq_sim(config, 0);
+        let (req_tx, req_rx) = futures::channel::mpsc::unbounded::<tako::Result<FromClientMessage>>();
+        let (resp_tx, resp_rx) = futures::channel::mpsc::unbounded::<ToClientMessage>();
+        let events: Rc<RefCell<Vec<String>>> = Default::default();
+        // journal sink: what the journal thread would do with the stream of messages
+        let mut journal_rx = std::mem::replace(&mut hq.journal_rx, tokio::sync::mpsc::unbounded_channel().1);
+        let ev2 = events.clone();
+        tokio::task::spawn_local(async move {
+            while let Some(m) = journal_rx.recv().await {
+                match m {
+                    EventStreamMessage::Event(e) => {
+                        if let Some(s) = event_str(&e.payload) {
+                            ev2.borrow_mut().push(s);
+                        }
+                    }
+                    EventStreamMessage::FlushJournal(cb) => {
+                        let _ = cb.send(());
+                    }
+                    EventStreamMessage::PruneJournal { callback, .. } => {
+                        let _ = callback.send(());
+                    }
+                    EventStreamMessage::ReplayJournal(_) => {}
+                }
+            }
+        });
+        // the real client RPC loop over in-memory channels
+        let state_ref = hq.state_ref.clone();
+        let senders = hq.senders.clone();
+        let dir = tempfile::tempdir().unwrap();
+        let server_dir = ServerDir::open(dir.path()).unwrap();
+        tokio::task::spawn_local(async move {
+            let _keep = dir;
+            let sink = resp_tx.sink_map_err(|e| tako::Error::from(format!("{e:?}")));
+            client_rpc_loop(sink, req_rx, server_dir, state_ref, &senders, Arc::new(Notify::new())).await;
+        });
+        H { hq, req_tx, resp_rx, events, launch_seen: Default::default(), out: String::new(), dead: false }
+    }
+
+    async fn client(&mut self, m: FromClientMessage) -> Option<ToClientMessage> {
+        self.req_tx.unbounded_send(Ok(m)).ok()?;
+        for _ in 0..200 {
+            tokio::task::yield_now().await;
+            if let Ok(Some(r)) = self.resp_rx.try_next() {
+                return Some(r);
+            }
+        }
+        None
+    }
+
+    fn wid(w: u32) -> WorkerId {
+        WorkerId::new(w)
+    }
+
+    /// Everything observable after an operation.
+    fn observe(&mut self) {
+        self.hq.sim.pump();
+        for e in self.events.borrow_mut().drain(..) {
+            writeln!(self.out, "= EV {e}").unwrap();
+        }
+        let mut wids: Vec<WorkerId> = self.hq.sim.workers.keys().copied().collect();
+        wids.sort();
+        for w in &wids {
+            let sw = &self.hq.sim.workers[w];
+            let l = sw.launcher.borrow();
+            let seen = self.launch_seen.entry(w.as_num()).or_insert(0);
+            for r in &l.log[*seen..] {
+                writeln!(self.out, "= LAUNCH {w} {} inst={} rv={} nodes={} {} alloc={}", tid(r.task_id), r.instance_id, r.rv_id, join(r.node_list.iter(), "+"),
+                    if r.ok { "ok" } else { "err" },
+                    join(r.allocation.iter().map(|(rid, idx, amount)| format!("{rid}:{amount}:{}", idx.len())), ",")).unwrap();
+            }
+            *seen = l.log.len();
+        }
+        let snap = self.hq.sim.snapshot();
+        writeln!(self.out, "= CORE flag={} {}", snap.flag as u32,
+            join(snap.tasks.iter().map(|t| format!("{}:{}:{}:{}:{}:{}:d{}:c{}", tid(t.id), t.state, t.rq, t.user_priority, t.instance, t.crash_counter, tids(&t.deps), tids(&t.consumers))), " ")).unwrap();
+        writeln!(self.out, "= WRK {}", join(snap.workers.iter().map(|w| {
+            let a = match (&w.sn, &w.mn) {
+                (Some((a, p, f)), _) => format!("sn:a{}:p{}:f{}", tids(a), tids(p), join(f.iter(), "+")),
+                (_, Some((t, root))) => format!("mn:{}:{}", tid(*t), *root as u32),
+                _ => "?".into(),
+            };
+            format!("{}:{}:r{}:b{}:g{}:s{}", w.id, a, join(w.resources.iter(), "+"), join(w.blocked.iter().map(|(a, b)| format!("{a}/{b}")), "+"), w.group, w.stopping as u32)
+        }), " ")).unwrap();
+        writeln!(self.out, "= QUE {}", join(snap.queues.iter().map(|q| {
+            format!("{}:{}:{}", q.rq, join(q.ready.iter().map(|(p, ids)| format!("{p}={}", tids(ids))), "/"),
+                q.prefill.as_ref().map(|(p, ids)| format!("{p}={}", tids(ids))).unwrap_or("-".into()))
+        }), " ")).unwrap();
+        writeln!(self.out, "= RED {}", join(snap.redirects.iter().map(|(t, w, v)| format!("{}>{w}:{v}", tid(*t))), " ")).unwrap();
+        // job layer
+        {
+            let st = self.hq.state_ref.get();
+            let mut jobs: Vec<_> = st.jobs().collect();
+            jobs.sort_by_key(|j| j.job_id);
+            writeln!(self.out, "= HQ {}", join(jobs.iter().map(|j| {
+                let mut ts: Vec<_> = j.tasks.iter().collect();
+                ts.sort_by_key(|(id, _)| **id);
+                let c = &j.counters;
+                format!("{}:{}:{},{},{},{},{}:{}:{}:{}", j.job_id, j.is_open as u32, c.n_running_tasks, c.n_finished_tasks, c.n_failed_tasks, c.n_canceled_tasks, c.n_aborted_tasks,
+                    j.completion_date.is_some() as u32, opt_u32(&j.job_desc.max_fails),
+                    join(ts.iter().map(|(id, info)| format!("{}{}", id, match info.state {
+                        JobTaskState::Waiting => 'W',
+                        JobTaskState::Running { .. } => 'R',
+                        JobTaskState::Finished { .. } => 'F',
+                        JobTaskState::Failed { .. } => 'X',
+                        JobTaskState::Canceled { .. } => 'C',
+                        JobTaskState::Aborted { .. } => 'A',
+                    })), ","))
+            }), " ")).unwrap();
+        }
+        for w in &wids {
+            let ws = self.hq.sim.worker_snapshot(*w).unwrap();
+            let pend = self.hq.sim.pending_tasks(*w);
+            writeln!(self.out, "= WK {w} back={} run={} blk={} fut={} down=[{}] up=[{}]",
+                join(ws.backlog.iter().map(|(rq, ts)| format!("{rq}:{}", tids(ts))), "/"),
+                join(ws.running.iter().map(|(t, rv)| format!("{}:{rv}", tid(*t))), ","),
+                join(ws.blocked.iter().map(|(a, b)| format!("{a}/{b}")), "+"),
+                join(pend.iter().map(|(t, s)| format!("{}:{}", tid(*t), s.unwrap_or("-"))), ","),
+                join(self.hq.sim.pending_down(*w).iter().map(down_str), " | "),
+                join(self.hq.sim.pending_up(*w).iter().map(up_str), " | ")).unwrap();
+        }
+    }
+
+    fn enabled(&self, o: &Op) -> bool {
+        let sim = &self.hq.sim;
+        match o {
+            Op::Lost { w, .. } => sim.workers.contains_key(&Self::wid(*w)),
+            Op::DDown { w } => sim.down_len(Self::wid(*w)) > 0,
+            Op::DUp { w } => sim.up_len(Self::wid(*w)) > 0,
+            Op::Sched => sim.scheduling_flag(),
+            Op::End { w, t, .. } => sim.pending_tasks(Self::wid(*w)).iter().any(|(x, _)| x == t),
+            Op::FailNext { w, .. } => sim.workers.contains_key(&Self::wid(*w)),
+            _ => true,
+        }
+    }
+
+    /// Execute one operation on the real system; the `O` line is completed with the witnesses.
+    async fn exec(&mut self, o: &Op) -> bool {
+        if self.dead {
+            return false;
+        }
+        self.hq.sim.pump();
+        if !self.enabled(o) {
+            return false;
+        }
+        let panics_before = hqv_common::PANIC_COUNT.with(|c| c.get());
+        let mut oline = format!("O {}", op_sym(o));
+        let mut resp_line: Option<String> = None;
+        // hash-iteration orders the real code is about to observe
+        let orders = self.hq.sim.orders();
+        match o {
+            Op::Lost { w, .. } => {
+                if let Some((_, a, p)) = orders.worker_sets.iter().find(|(id, _, _)| id.as_num() == *w) {
+                    write!(oline, " a={} p={}", tids(a), tids(p)).unwrap();
+                } else {
+                    write!(oline, " a=- p=-").unwrap();
+                }
+                write!(oline, " t={}", tids(&orders.tasks)).unwrap();
+            }
+            Op::Sched => {
+                write!(oline, " w={} pf={}", join(orders.workers.iter(), ","), join(orders.prefill_sets.iter().map(|(rq, ts)| format!("{rq}:{}", tids(ts))), "/")).unwrap();
+            }
+            _ => {}
+        }
+        let res: Result<(), String> = {
+            let this = &mut *self;
+            let r = std::panic::AssertUnwindSafe(async {
+                match o {
+                    Op::Connect { units, group } => {
+                        let spec = WorkerSpec {
+                            resources: units.iter().enumerate().filter(|(_, u)| **u > 0).map(|(i, u)| (RES_NAMES[i].to_string(), *u)).collect(),
+                            group: format!("g{group}"),
+                        };
+                        let w = this.hq.sim.connect_worker(&spec, Some(Box::new(running_context)));
+                        resp_line = Some(format!("= W {w}"));
+                    }
+                    Op::Lost { w, reason } => this.hq.sim.lose_worker(Self::wid(*w), reason_of(*reason)),
+                    Op::Submit { job, ids, entries, rq, prio, crash, tlim, maxfails } => {
+                        let ids_arr = match ids {
+                            None => IntArray::new_empty(),
+                            Some(v) => {
+                                let mut v = v.clone();
+                                v.sort();
+                                v.dedup();
+                                IntArray::from_sorted_ids(v.into_iter())
+                            }
+                        };
+                        let req = SubmitRequest {
+                            job_desc: JobDescription { name: "j".into(), max_fails: *maxfails },
+                            submit_desc: JobSubmitDescription {
+                                task_desc: JobTaskDescription::Array {
+                                    ids: ids_arr,
+                                    entries: entries.map(|n| (0..n).map(|i| thin_vec::thin_vec![i as u8]).collect()),
+                                    resource_rq: rq.to_rqv(),
+                                    task_desc: task_desc(*prio, crash, *tlim),
+                                },
+                                submit_dir: "/tmp".into(),
+                                stream_path: None,
+                            },
+                            job_id: job.map(JobId::new),
+                        };
+                        let r = this.client(FromClientMessage::Submit(req, None)).await;
+                        resp_line = Some(submit_resp(r));
+                    }
+                    Op::SubmitG { job, rqs, tasks, maxfails } => {
+                        let req = SubmitRequest {
+                            job_desc: JobDescription { name: "j".into(), max_fails: *maxfails },
+                            submit_desc: JobSubmitDescription {
+                                task_desc: JobTaskDescription::Graph {
+                                    resource_rqs: rqs.iter().map(|r| r.to_rqv()).collect(),
+                                    tasks: tasks
+                                        .iter()
+                                        .map(|(id, rq, p, c, deps)| TaskWithDependencies {
+                                            id: JobTaskId::new(*id),
+                                            resource_rq_id: (*rq).into(),
+                                            task_desc: task_desc(*p, c, false),
+                                            task_deps: deps.iter().map(|d| JobTaskId::new(*d)).collect(),
+                                        })
+                                        .collect(),
+                                },
+                                submit_dir: "/tmp".into(),
+                                stream_path: None,
+                            },
+                            job_id: job.map(JobId::new),
+                        };
+                        let r = this.client(FromClientMessage::Submit(req, None)).await;
+                        resp_line = Some(submit_resp(r));
+                    }
+                    Op::Open { maxfails } => {
+                        let r = this.client(FromClientMessage::OpenJob(JobDescription { name: "o".into(), max_fails: *maxfails })).await;
+                        resp_line = Some(match r {
+                            Some(ToClientMessage::OpenJobResponse(r)) => format!("= RESP open {}", r.job_id),
+                            other => format!("= RESP open ?{}", other.is_some()),
+                        });
+                    }
+                    Op::Close { job } => {
+                        let r = this.client(FromClientMessage::CloseJob(CloseJobRequest { selector: IdSelector::Specific(IntArray::from_id(*job)) })).await;
+                        resp_line = Some(match r {
+                            Some(ToClientMessage::CloseJobResponse(v)) => format!("= RESP close {}", join(v.iter().map(|(_, r)| match r {
+                                CloseJobResponse::Closed => "closed",
+                                CloseJobResponse::InvalidJob => "invalid",
+                                CloseJobResponse::AlreadyClosed => "already",
+                            }), ",")),
+                            other => format!("= RESP close ?{}", other.is_some()),
+                        });
+                    }
+                    Op::Cancel { job } => {
+                        let r = this.client(FromClientMessage::Cancel(CancelRequest { selector: IdSelector::Specific(IntArray::from_id(*job)), reason: None })).await;
+                        resp_line = Some(match r {
+                            Some(ToClientMessage::CancelJobResponse(v)) => format!("= RESP cancel {}", join(v.iter().map(|(_, r)| match r {
+                                CancelJobResponse::Canceled(ids, already) => {
+                                    let mut ids: Vec<u32> = ids.iter().map(|i| i.as_num()).collect();
+                                    ids.sort();
+                                    format!("ok:{}:{}", join(ids.iter(), "+"), already)
+                                }
+                                CancelJobResponse::InvalidJob => "invalid".to_string(),
+                                CancelJobResponse::Failed(_) => "failed".to_string(),
+                            }), ",")),
+                            other => format!("= RESP cancel ?{}", other.is_some()),
+                        });
+                    }
+                    Op::Forget { job } => {
+                        use hyperqueue::client::status::Status;
+                        let r = this.client(FromClientMessage::ForgetJob(ForgetJobRequest {
+                            selector: IdSelector::Specific(IntArray::from_id(*job)),
+                            filter: vec![Status::Finished, Status::Failed, Status::Canceled, Status::Aborted],
+                        })).await;
+                        resp_line = Some(match r {
+                            Some(ToClientMessage::ForgetJobResponse(f)) => format!("= RESP forget {} {}", f.forgotten, f.ignored),
+                            other => format!("= RESP forget ?{}", other.is_some()),
+                        });
+                    }
+                    Op::DDown { w } => {
+                        let m = this.hq.sim.deliver_down(Self::wid(*w));
+                        resp_line = Some(format!("= DOWN {w} {}", m.as_ref().map(down_str).unwrap_or("-".into())));
+                    }
+                    Op::DUp { w } => {
+                        let m = this.hq.sim.deliver_up(Self::wid(*w));
+                        resp_line = Some(format!("= UP {w} {}", m.as_ref().map(up_str).unwrap_or("-".into())));
+                    }
+                    Op::Sched => {
+                        let sol = this.hq.sim.schedule();
+                        write!(oline, " sn={} mn={} opt={}",
+                            join(sol.sn.iter().map(|((rq, rv), ws)| format!("{rq}/{rv}:{}", join(ws.iter().map(|(w, c)| format!("{w}={c}")), "+"))), ";"),
+                            join(sol.mn.iter().map(|((rq, rv), sets)| format!("{rq}/{rv}:{}", join(sets.iter().map(|s| join(s.iter(), "+")), "&"))), ";"),
+                            sol.is_optimal as u32).unwrap();
+                    }
+                    Op::End { w, t, how } => {
+                        let end = match how {
+                            0 => VEnd::Finished,
+                            1 => VEnd::Failed("task failed".into()),
+                            _ => VEnd::FollowStop,
+                        };
+                        this.hq.sim.end_task(Self::wid(*w), *t, end);
+                    }
+                    Op::FailNext { w, t } => {
+                        if let Some(sw) = this.hq.sim.workers.get(&Self::wid(*w)) {
+                            sw.launcher.borrow_mut().fail_next.push(*t);
+                        }
+                    }
+                    Op::Timer => {
+                        tokio::time::advance(Duration::from_secs(3601)).await;
+                    }
+                }
+                settle().await;
+            });
+            use futures::FutureExt;
+            match r.catch_unwind().await {
+                Ok(()) => Ok(()),
+                Err(e) => {
+                    let msg = if let Some(s) = e.downcast_ref::<&str>() { s.to_string() } else if let Some(s) = e.downcast_ref::<String>() { s.clone() } else { "?".into() };
+                    let loc = hqv_common::LAST_PANIC_LOC.with(|l| l.borrow().clone());
+                    Err(format!("{} @ {}", msg.replace('\n', " "), loc))
+                }
+            }
+        };
+        writeln!(self.out, "{oline}").unwrap();
+        if let Some(r) = resp_line {
+            writeln!(self.out, "{r}").unwrap();
+        }
+        let res = match res {
+            Ok(()) if hqv_common::PANIC_COUNT.with(|c| c.get()) != panics_before => {
+                // a panic inside a spawned task (client RPC loop, task future): tokio swallowed it
+                let loc = hqv_common::LAST_PANIC_LOC.with(|l| l.borrow().clone());
+                Err(format!("panic in a spawned task @ {loc}"))
+            }
+            r => r,
+        };
+        match res {
+            Ok(()) => {
+                let obs = hqv_common::catch(|| self.observe());
+                if let Err(m) = obs {
+                    writeln!(self.out, "= PANIC observe {m}").unwrap();
+                    self.dead = true;
+                }
+            }
+            Err(m) => {
+                // the server (or worker) process would be gone: the history ends here
+                let loc = m.rsplit(" @ ").next().unwrap_or("").to_string();
+                writeln!(self.out, "= PANIC {loc} | {}", m.chars().take(160).collect::<String>()).unwrap();
+                self.dead = true;
+            }
+        }
+        true
+    }
+}
+
+fn submit_resp(r: Option<ToClientMessage>) -> String {
+    match r {
+        Some(ToClientMessage::SubmitResponse(SubmitResponse::Ok { job, .. })) => {
+            let mut ids: Vec<u32> = job.tasks.iter().map(|(id, _)| id.as_num()).collect();
+            ids.sort();
+            format!("= RESP submit ok {} n={} ids={}", job.info.id, job.info.n_tasks, join(ids.iter(), ","))
+        }
+        Some(ToClientMessage::SubmitResponse(SubmitResponse::JobNotOpened)) => "= RESP submit err notopen".into(),
+        Some(ToClientMessage::SubmitResponse(SubmitResponse::JobNotFound)) => "= RESP submit err notfound".into(),
+        Some(ToClientMessage::SubmitResponse(SubmitResponse::TaskIdAlreadyExists(i))) => format!("= RESP submit err exists {i}"),
+        Some(ToClientMessage::SubmitResponse(SubmitResponse::NonUniqueTaskId(i))) => format!("= RESP submit err nonunique {i}"),
+        Some(ToClientMessage::SubmitResponse(SubmitResponse::InvalidDependencies(i))) => format!("= RESP submit err invaliddep {i}"),
+        other => format!("= RESP submit ?{}", other.is_some()),
+    }
+}
+
+// ---------------------------------------------------------------------------------------------
+// generation
+
+struct GenCfg {
+    steps: u64,
+    max_workers: u32,
+    mn: bool,
+    faults: bool,
+}
+
+fn random_rq(rng: &mut Rng, mn: bool) -> RqSpec {
+    if mn && rng.chance(1, 8) {
+        return RqSpec { nodes: 2, units: [0; 3] };
+    }
+    match rng.below(10) {
+        0..=4 => RqSpec { nodes: 0, units: [1, 0, 0] },
+        5..=6 => RqSpec { nodes: 0, units: [2, 0, 0] },
+        7 => RqSpec { nodes: 0, units: [1, 1, 0] },
+        8 => RqSpec { nodes: 0, units: [4, 0, 0] },
+        _ => RqSpec { nodes: 0, units: [3, 0, 0] },
+    }
+}
+
+fn random_crash(rng: &mut Rng) -> Crash {
+    match rng.below(8) {
+        0 => Crash::Never,
+        1 | 2 => Crash::Max(1),
+        3 => Crash::Max(2),
+        4 => Crash::Unlimited,
+        _ => Crash::Max(5),
+    }
+}
+
+async fn gen_trace(id: u64, rng: &mut Rng, tier: &str) -> String {
+    let reserve = *rng.pick(&[0u32, 1, 2, 2, 16]);
+    let maxp = *rng.pick(&[1u32, 2, 3, 3, 40]);
+    let cfg = GenCfg { steps: if tier == "thorough" { rng.range(40, 260) } else { rng.range(30, 140) }, max_workers: rng.range(1, 4) as u32, mn: rng.chance(1, 3), faults: rng.chance(3, 4) };
+    let mut h = H::new(reserve, maxp);
+    writeln!(h.out, "TRACE {id} cluster").unwrap();
+    writeln!(h.out, "C sched {reserve} {maxp}").unwrap();
+    let mut jobs: Vec<(u32, bool)> = vec![]; // (job id, open)
+    let mut next_job = 1u32;
+    let mut n_workers_ever = 0u32;
+    // a plausible beginning: a worker and a job
+    let mut script: Vec<Op> = vec![];
+    if rng.chance(3, 4) {
+        script.push(Op::Connect { units: [*rng.pick(&[1u32, 2, 4, 4, 8]), rng.below(3) as u32 / 2, 0], group: 0 });
+    }
+    let mut step = 0;
+    while step < cfg.steps && !h.dead {
+        step += 1;
+        let o = if let Some(o) = script.pop() {
+            o
+        } else {
+            h.hq.sim.pump();
+            let mut wids: Vec<u32> = h.hq.sim.workers.keys().map(|w| w.as_num()).collect();
+            wids.sort();
+            let mut cands: Vec<(u64, Op)> = vec![];
+            for w in &wids {
+                let wid = WorkerId::new(*w);
+                if h.hq.sim.down_len(wid) > 0 {
+                    cands.push((30, Op::DDown { w: *w }));
+                }
+                if h.hq.sim.up_len(wid) > 0 {
+                    cands.push((30, Op::DUp { w: *w }));
+                }
+                for (t, stop) in h.hq.sim.pending_tasks(wid) {
+                    let how = if stop.is_some() { if rng.chance(4, 5) { 2 } else { 0 } } else if cfg.faults && rng.chance(1, 6) { 1 } else { 0 };
+                    cands.push((8, Op::End { w: *w, t, how }));
+                }
+                if cfg.faults {
+                    cands.push((1, Op::Lost { w: *w, reason: rng.below(5) as u32 }));
+                }
+            }
+            if h.hq.sim.scheduling_flag() {
+                cands.push((25, Op::Sched));
+            }
+            if (wids.len() as u32) < cfg.max_workers && n_workers_ever < 6 {
+                cands.push((if wids.is_empty() { 20 } else { 3 }, Op::Connect { units: [*rng.pick(&[1u32, 2, 2, 4, 4, 8]), (rng.below(4) == 0) as u32, 0], group: rng.below(2) as u32 }));
+            }
+            // client requests
+            let open_jobs: Vec<u32> = jobs.iter().filter(|(_, o)| *o).map(|(j, _)| *j).collect();
+            let submit_w = if jobs.len() < 3 { 10 } else { 2 };
+            {
+                let job = if !open_jobs.is_empty() && rng.chance(2, 3) { Some(*rng.pick(&open_jobs)) } else if rng.chance(1, 12) { Some(rng.range(1, 4) as u32) } else { None };
+                let maxfails = if rng.chance(1, 3) { Some(rng.below(3) as u32) } else { None };
+                if rng.chance(2, 3) {
+                    let entries = if rng.chance(1, 4) { Some(rng.range(1, 4) as u32) } else { None };
+                    let ids = if rng.chance(1, 3) || entries.is_some() && rng.chance(1, 2) {
+                        None
+                    } else {
+                        let start = rng.below(6) as u32;
+                        let n = entries.unwrap_or(rng.range(1, 9) as u32);
+                        Some((start..start + n).collect())
+                    };
+                    cands.push((submit_w, Op::Submit { job, ids, entries, rq: random_rq(rng, cfg.mn), prio: *rng.pick(&[0, 0, 0, 1, 2, -1, 5]), crash: random_crash(rng), tlim: rng.chance(1, 8), maxfails }));
+                } else {
+                    // small DAG; ids ascending, deps mostly on earlier ids
+                    let n = rng.range(2, 7) as u32;
+                    let base = rng.below(4) as u32 * 10;
+                    let rqs: Vec<RqSpec> = (0..rng.range(1, 2)).map(|_| random_rq(rng, false)).collect();
+                    let mut tasks = vec![];
+                    for i in 0..n {
+                        let mut deps = vec![];
+                        for d in 0..i {
+                            if rng.chance(1, 3) {
+                                deps.push(base + d);
+                            }
+                        }
+                        if rng.chance(1, 25) {
+                            deps.push(base + i); // self dependency (invalid)
+                        }
+                        if rng.chance(1, 25) {
+                            deps.push(rng.below(40) as u32); // maybe unknown / maybe a task of an earlier submit
+                        }
+                        tasks.push((base + i, rng.below(rqs.len() as u64) as u32, *rng.pick(&[0, 0, 1, 3]), random_crash(rng), deps));
+                    }
+                    cands.push((submit_w, Op::SubmitG { job, rqs, tasks, maxfails }));
+                }
+            }
+            if jobs.len() < 3 {
+                cands.push((2, Op::Open { maxfails: if rng.chance(1, 3) { Some(rng.below(2) as u32) } else { None } }));
+            }
+            for (j, open) in &jobs {
+                if *open {
+                    cands.push((2, Op::Close { job: *j }));
+                }
+                if cfg.faults {
+                    cands.push((1, Op::Cancel { job: *j }));
+                }
+                cands.push((1, Op::Forget { job: *j }));
+            }
+            if rng.chance(1, 40) {
+                cands.push((2, Op::Close { job: rng.range(1, 5) as u32 }));
+                cands.push((2, Op::Cancel { job: rng.range(1, 5) as u32 }));
+            }
+            if cfg.faults && rng.chance(1, 10) {
+                cands.push((2, Op::Timer));
+                if let Some(w) = wids.first() {
+                    // make the next launch of some queued task fail
+                    let snap = h.hq.sim.snapshot();
+                    if let Some(t) = snap.tasks.first() {
+                        cands.push((3, Op::FailNext { w: *w, t: t.id }));
+                    }
+                }
+            }
+            let total: u64 = cands.iter().map(|(w, _)| *w).sum();
+            let mut x = rng.below(total.max(1));
+            let mut chosen = cands[0].1.clone();
+            for (w, o) in cands {
+                if x < w {
+                    chosen = o;
+                    break;
+                }
+                x -= w;
+            }
+            chosen
+        };
+        if h.exec(&o).await {
+            match &o {
+                Op::Connect { .. } => n_workers_ever += 1,
+                Op::Submit { job: None, .. } | Op::SubmitG { job: None, .. } => {
+                    // a new job id is consumed only on success; track from the state
+                    let st = h.hq.state_ref.get();
+                    jobs = st.jobs().map(|j| (j.job_id.as_num(), j.is_open)).collect();
+                    next_job = jobs.iter().map(|(j, _)| *j).max().unwrap_or(0) + 1;
+                }
+                _ => {
+                    let st = h.hq.state_ref.get();
+                    jobs = st.jobs().map(|j| (j.job_id.as_num(), j.is_open)).collect();
+                }
+            }
+        }
+    }
+    let _ = next_job;
+    writeln!(h.out, "END").unwrap();
+    h.out
+}
+
+async fn replay(input: &str) -> String {
+    let mut out = String::new();
+    let mut h: Option<H> = None;
+    let mut header = String::new();
+    for line in input.lines() {
+        if line.starts_with("TRACE ") {
+            header = line.to_string();
+            h = None;
+        } else if line == "END" {
+            if let Some(mut x) = h.take() {
+                writeln!(x.out, "END").unwrap();
+                out.push_str(&x.out);
+            }
+        } else if let Some(c) = line.strip_prefix("C sched ") {
+            let p: Vec<u32> = c.split_whitespace().map(|x| x.parse().unwrap()).collect();
+            let mut nh = H::new(p[0], p[1]);
+            writeln!(nh.out, "{header}").unwrap();
+            writeln!(nh.out, "{line}").unwrap();
+            h = Some(nh);
+        } else if let Some(o) = line.strip_prefix("O ") {
+            if let Some(x) = h.as_mut() {
+                x.exec(&parse_op(o)).await;
+            }
+        }
+    }
+    out
+}
+
 fn main() {
-    println!("hqv-cluster");
+    install_panic_hook();
+    let args: Vec<String> = std::env::args().collect();
+    let get = |name: &str| args.iter().position(|a| a == name).map(|i| args[i + 1].clone());
+    let rt = tokio::runtime::Builder::new_current_thread().enable_all().start_paused(true).build().unwrap();
+    let local = tokio::task::LocalSet::new();
+    match args.get(1).map(|s| s.as_str()) {
+        Some("gen") => {
+            let seed: u64 = get("--seed").and_then(|s| s.parse().ok()).unwrap_or(env_u64("VERIF_SEED", 1));
+            let count: u64 = get("--count").and_then(|s| s.parse().ok()).unwrap_or(20);
+            let tier = get("--tier").unwrap_or("quick".into());
+            let outp = get("--out").expect("--out");
+            let mut rng = Rng::new(seed);
+            let mut out = String::new();
+            for i in 0..count {
+                let mut r = rng.fork();
+                let s = local.block_on(&rt, gen_trace(seed * 100000 + i, &mut r, &tier));
+                out.push_str(&s);
+            }
+            std::fs::write(outp, out).unwrap();
+        }
+        Some("replay") => {
+            let inp = get("--in").expect("--in");
+            let outp = get("--out").expect("--out");
+            let text = std::fs::read_to_string(inp).unwrap();
+            let s = local.block_on(&rt, replay(&text));
+            std::fs::write(outp, s).unwrap();
+        }
+        _ => {
+            eprintln!("usage: hqv-cluster gen --seed S --count N --tier T --out FILE | replay --in FILE --out FILE");
+            std::process::exit(2);
+        }
+    }
 }
